@@ -323,6 +323,12 @@ def make_exc(shape):
         return ReduceHides(2, 'y')
     if shape == 'oserror':
         return OSError(2, 'No such file', 'name')
+    if shape == 'ctor_rewrites_args':
+        from harness.detsim.scenario import PrefixedError
+        return PrefixedError('bad value', limit=3)
+    if shape == 'ctor_rejects_args':
+        from harness.detsim.scenario import WrapError, _Resp
+        return WrapError(_Resp(404))
     if shape == 'local_attr':
         e = ValueError('la')
         e.obj = type('Dyn', (), {})()
@@ -331,7 +337,7 @@ def make_exc(shape):
 
 
 EXC_SHAPES = ['builtin', 'custom_init', 'attrs', 'lock_attr', 'lambda_arg', 'local_class', 'gen_attr', 'systemexit',
-              'keyboardinterrupt', 'cancelled', 'local_attr', 'reduce_hides_lock', 'reduce_ok', 'oserror']
+              'keyboardinterrupt', 'cancelled', 'local_attr', 'reduce_hides_lock', 'reduce_ok', 'oserror', 'ctor_rewrites_args', 'ctor_rejects_args']
 
 
 def exc_run(shape, use_dill, start_method='fork'):
